@@ -487,7 +487,8 @@ pub fn run_history(s: &Scenario, only: Option<u8>, trace: bool) -> RunOut {
                 if !keep.is_empty() && keep.len() < n_before {
                     out.partial_prunes += 1;
                 }
-                let got: Vec<u32> = planes.keys().map(icao_u).collect();
+                let mut got: Vec<u32> = planes.keys().map(icao_u).collect();
+                got.sort_unstable();
                 if got != keep {
                     fails.push(("C15/prune_keys".into(), format!("prune({t}) left {:?}, expected {:?} (ages in s: {:?})", got.iter().map(|x| format!("{x:06x}")).collect::<Vec<_>>(), keep.iter().map(|x| format!("{x:06x}")).collect::<Vec<_>>(), before["records"].as_object().map(|o| o.keys().cloned().collect::<Vec<_>>()))));
                 } else {
@@ -578,7 +579,9 @@ fn step_model(model: &mut Model, b: &Built, added: Added, planes: &Airplanes, rx
     rec.count += 1;
     rec.age_half_s = 0;
     // key set
-    let got: Vec<u32> = planes.keys().map(icao_u).collect();
+    // (as sets: in which order the tracker enumerates its records is not part of the property)
+    let mut got: Vec<u32> = planes.keys().map(icao_u).collect();
+    got.sort_unstable();
     let want: Vec<u32> = model.recs.keys().copied().collect();
     if got != want {
         fails.push(("C12/keys".into(), format!("tracked addresses {:?}, expected {:?} after a frame announcing {key}", got.iter().map(|x| format!("{x:06x}")).collect::<Vec<_>>(), want.iter().map(|x| format!("{x:06x}")).collect::<Vec<_>>())));
@@ -996,6 +999,9 @@ pub fn replay(pid: &str, v: &Value) -> Vec<Failure> {
         let rounds = v["rounds"].as_u64().unwrap_or(2) as usize;
         return crowd_check(v["seed"].as_u64().unwrap_or(1), n, rounds).into_iter().filter(|f| f.0.starts_with(pid)).map(|(sig, msg)| Failure { sig, msg, replay: v.clone() }).collect();
     }
+    if v.get("kind").and_then(|k| k.as_str()) == Some("crowd_positions") {
+        return crowd_positions_check(v["seed"].as_u64().unwrap_or(1), v["n"].as_u64().unwrap_or(900) as usize).into_iter().filter(|f| f.0.starts_with(pid)).map(|(sig, msg)| Failure { sig, msg, replay: v.clone() }).collect();
+    }
     if v.get("kind").and_then(|k| k.as_str()) == Some("long_count") {
         return long_count_check(v["seed"].as_u64().unwrap_or(1), v["n"].as_u64().unwrap_or(70_000) as usize).into_iter().filter(|f| f.0.starts_with(pid)).map(|(sig, msg)| Failure { sig, msg, replay: v.clone() }).collect();
     }
@@ -1052,6 +1058,90 @@ pub fn crowd_check(seed: u64, n: usize, rounds: usize) -> Vec<Fail> {
             if fails.len() > 3 {
                 return fails;
             }
+        }
+    }
+    fails
+}
+
+/// C13 / C14 with a crowd: `n` aircraft, each at its own place around the receiver, each heard
+/// with an even and an odd report (some with further reports a few hundred metres on).  Every one
+/// must be published at its own place with its own distance; the position list and the details
+/// hold exactly these aircraft.  (Histories only use up to 4 aircraft.)
+pub fn crowd_positions_check(seed: u64, n: usize) -> Vec<Fail> {
+    use crate::core::RngExt;
+    let mut rng = make_rng(seed, 0xc0de2, n as u64);
+    let rx = (52.0, 4.0);
+    let mut planes = Airplanes::new();
+    let mut fails = vec![];
+    let mut truth: BTreeMap<u32, (f64, f64, u16)> = BTreeMap::new();
+    let mut first_place: BTreeMap<u32, (f64, f64)> = BTreeMap::new();
+    let addr = |i: usize| 0x200000 + (i as u32) * 0x0205 + (i as u32 % 3);
+    let report = |a: u32, p: (f64, f64), parity: u32, altc: u16, df18: bool| {
+        let e = refcpr::encode(p.0, p.1, parity);
+        let mut me = [0u8; 7];
+        set(&mut me, 1, 5, 11);
+        set(&mut me, 9, 12, altc as u64);
+        set(&mut me, 22, 1, parity as u64);
+        set(&mut me, 23, 17, e.0 as u64);
+        set(&mut me, 40, 17, e.1 as u64);
+        squitter(if df18 { 18 } else { 17 }, 5, a, &me)
+    };
+    // interleaved: all even reports first, then the odd ones in another order, then a few moves
+    let order: Vec<usize> = (0..n).collect();
+    for round in 0..3 {
+        for k in 0..n {
+            let i = if round == 1 { order[(k * 7 + 3) % n] } else { order[k] };
+            if round == 2 && i % 5 != 0 {
+                continue;
+            }
+            let a = addr(i);
+            let base = refcpr::destination(rx, (i as f64 * 11.7) % 360.0, 2.0 + (i as f64 * 0.61) % 430.0);
+            let p = if round == 2 { refcpr::destination(base, 90.0, 0.4) } else { base };
+            let n25 = 60 + (i as u16 % 1500);
+            let altc = ((n25 & 0x7f0) << 1) | 0x10 | (n25 & 0xf);
+            let parity = if round == 2 { rng.below(2) as u32 } else { round as u32 };
+            let bytes = report(a, p, parity, altc, i % 9 == 4);
+            let Ok(frame) = Frame::from_bytes(&bytes) else { continue };
+            planes.action(frame, rx, 500.0);
+            truth.insert(a, (p.0, p.1, (n25 as i32 * 25 - 1000) as u16));
+            if round < 2 {
+                first_place.insert(a, base);
+            }
+        }
+    }
+    let listed: BTreeMap<u32, (f64, f64)> = planes.all_position().into_iter().map(|(k, p)| (icao_u(&k), (p.latitude, p.longitude))).collect();
+    if listed.len() != n || planes.len() != n {
+        fails.push(("C14/all_position/crowd".to_string(), format!("{n} aircraft were each heard with an even and an odd report inside the range; {} are tracked, the position list holds {}", planes.len(), listed.len())));
+    }
+    for (a, (lat, lon, alt)) in &truth {
+        let Some(st) = planes.get(icao(*a)) else {
+            fails.push(("C12/keys/crowd".to_string(), format!("{a:06x} was heard but is not tracked")));
+            break;
+        };
+        match (st.coords.position, st.coords.kilo_distance, listed.get(a)) {
+            (Some(p), Some(d), Some(l)) => {
+                // (either of the two paired reports may be taken as the more recent one: the place
+                // of the last report or of the one before it)
+                let off = refcpr::dist_km((p.latitude, p.longitude), (*lat, *lon)).min(first_place.get(a).map(|b| refcpr::dist_km((p.latitude, p.longitude), *b)).unwrap_or(f64::MAX));
+                let want_d = refcpr::dist_km(rx, (p.latitude, p.longitude));
+                if off > 0.05 {
+                    fails.push(("C13/position/crowd".to_string(), format!("{a:06x} is at ({lat:.5}, {lon:.5}); among {n} aircraft it is published at ({:.5}, {:.5}), {off:.2} km away", p.latitude, p.longitude)));
+                }
+                if (d - want_d).abs() > 1e-6 * want_d.max(1.0) {
+                    fails.push(("C13/distance/crowd".to_string(), format!("{a:06x}: distance {d} km, the great-circle distance of its published position is {want_d} km")));
+                }
+                if (l.0, l.1) != (p.latitude, p.longitude) {
+                    fails.push(("C14/all_position/crowd".to_string(), format!("{a:06x}: the position list gives {l:?}, the record {:?}", (p.latitude, p.longitude))));
+                }
+                match planes.aircraft_details(icao(*a)) {
+                    Some(det) if det.position == p && det.kilo_distance == d && det.altitude as u64 == *alt as u64 => {}
+                    other => fails.push(("C14/details/crowd".to_string(), format!("{a:06x}: details {:?}, the record has position {:?}, distance {d}, altitude {alt}", other.map(|x| (x.position, x.kilo_distance, x.altitude)), p))),
+                }
+            }
+            other => fails.push(("C13/position/crowd".to_string(), format!("{a:06x} sent an even and an odd report from ({lat:.5}, {lon:.5}) inside the range, but position / distance / list entry are {:?}", (other.0.map(|p| (p.latitude, p.longitude)), other.1, other.2)))),
+        }
+        if fails.len() > 4 {
+            break;
         }
     }
     fails
@@ -1299,6 +1389,14 @@ pub fn run(ctx: &Ctx, pid: &'static str) -> ! {
                         }
                     }
                 }
+            }
+        }
+        for nn in [900usize, if ctx.tier == Tier::Quick { 2500 } else { 40_000 }] {
+            st.evaluations += nn as u64;
+            st.nontrivial_enum += 1;
+            st.class("crowd of positioned aircraft");
+            for (sig, msg) in crowd_positions_check(ctx.seed, nn).into_iter().filter(|f| f.0.starts_with(pid)) {
+                st.fail(Failure { sig, msg, replay: json!({"kind": "crowd_positions", "n": nn, "seed": ctx.seed}) });
             }
         }
         st.evaluations += n;
